@@ -405,10 +405,15 @@ PROPS['C06'] = {
     'ops': ['frame-fuzz'], 'judge': judge_kdbx4('C06'), 'assumptions': FRAME_ASSUME,
     'rule': 'KDBX4: every kind of prefix, authenticated-but-malformed interiors (bad inner key length, empty attachment field, truncated XML, missing inner fields, garbage XML, '
             'cut/over-long inner header), header bytes and variant-dictionary surgery with the unkeyed hash recomputed, AES-KDF seeds of the wrong length, random bytes, valid signature + random; '
+            'KDBX3: prefixes, header bytes, authenticated-but-malformed payloads (cut, no terminator block, bad hash, long stream-start field, stream start only), transform seeds of the wrong length, short typed fields; '
+            'KDB: prefixes, header bytes, authenticated-but-malformed records (cut, over-counted groups/entries, substituted bytes, empty payload, appended bytes), payloads ending in a large byte, a lone key element that is not 32 bytes; '
             'KDF cost clamped; non-trivial = input passes the signature check',
-    'partial': ['C06_total (no panic on any input) is false on the unchanged code: one witness theorem per site; KDBX3/KDB/XML-level sites are added with their models'],
-    'level_text': 'Kernel-checked over the faithful model (every slice/unwrap modelled with its panic): the enumerated sites are the only panics, each has a witness, and well-formed files never panic. '
-                  'The real reader is run on malformed input in-process under catch_unwind with the panic site compared.',
+    'partial': ['the XML object-model reader (everything but the time-stamp scalar) is validated against the real reader, its no-panic theorem is not yet stated over the parser monad',
+                'stack exhaustion on ~1000 nested <Group> elements (A49) aborts the process and is outside what the in-process harness can observe; recorded in DESIGN.md',
+                'hangs: every model reader is structurally recursive on fuel bounded by the input length; the real reader is run under the harness (KDF cost clamped)'],
+    'level_text': 'Kernel-checked over the faithful models of the repaired readers (every slice/unwrap modelled): for every byte string, every credential set and every primitive family, '
+                  'decrypt_kdbx4, decrypt_kdbx3, parse_kdb and parse_xml_timestamp return a value or an error (C06_kdbx4_total, C06_kdbx3_total, C06_kdb_total, C06_timestamp_total). '
+                  'The 16 panic sites found on the code as given (F8) were repaired by fix: commits; the real readers are run on malformed input in-process under catch_unwind with outcome and error class compared with the model.',
 }
 PROPS['C01'] = {
     'ops': ['frame-wf'], 'judge': judge_kdbx4('C01'), 'assumptions': FRAME_ASSUME,
